@@ -161,7 +161,7 @@ def table_keys():
     for k in junior.bulgarian_tables():
         keys.append(('bulgarian', k[4:]))
     for fn in ('wma-data-2015.json', 'wma-data-2023.json', 'wma-athlons-data.json'):
-        with open(os.path.join(REPO, 'athlib', 'wma', fn)) as f:
+        with open(os.path.join(REPO, 'athlib', 'wma', fn), encoding='utf-8') as f:
             d = json.load(f)
         for g in 'mf':
             for row in d[g]:
